@@ -418,7 +418,8 @@ def fold_struct_layout(repo: Repo, max_len: int = 2) -> dict | None:
     for n in range(0, max_len + 1):
         seqs += list(itertools.product(names, repeat=n))
     seqs += [("u8", "u32", "u16"), ("u8:3", "u8:5", "u8:3"), ("u16:4", "u16:12", "u16:4"), ("u8", "dyn", "u32", "u8"), ("u8:3", "u16:4", "u8:3", "u32"),
-             ("u32", "u8:3", "u8@1", "u16"), ("c5", "u64", "u8", "e16:4", "u16:4"), ("u8", "i24", "u8", "u64"), ("u8:3", "dyn4", "u8:3", "u32")]
+             ("u32", "u8:3", "u8@1", "u16"), ("c5", "u64", "u8", "e16:4", "u16:4"), ("u8", "i24", "u8", "u64"), ("u8:3", "dyn4", "u8:3", "u32"),
+             ("dyn", "u8:3", "u8:5"), ("u8", "dyn4", "u16:4", "u16:12", "u8"), ("dyn", "u8:3", "u16:4", "u16:4")]
     out: dict = {"cases": 0, "struct_bad": [], "union_bad": []}
     try:
         for seq in seqs:
@@ -430,8 +431,8 @@ def fold_struct_layout(repo: Repo, max_len: int = 2) -> dict | None:
                 try:
                     r = Evaluator(env, steps=20000).call_user(UserFunc(sfi.node), [Sym("cls"), fields, align], {})
                     got: Any = (r[0], r[1], [f.attrs["offset"] for f in fields])
-                except Raised:
-                    got = "raise"
+                except Raised as e:
+                    got = "raise" if str(e).startswith("ValueError(") or "Straddled" in str(e) else f"raise {e}"
                 except ArithmeticError as e:
                     got = f"{type(e).__name__}: {e}"
                 out["cases"] += 1
